@@ -51,9 +51,10 @@ def token_constructs(node, enum_suffix):
 
 def main_match(F, fn):
     b = F.body(fn)
-    ms = [m for m in hirq.matches(b["hir"]) if hirq.local_name_of(m["scrut"]) == "x" and hirq.n_alts(m) > 20]
+    ms = [m for m in hirq.matches_on_type(F.lib, b["hir"], "char", 21) + hirq.matches_on_type(F.lib, b["hir"], "u8", 21)
+          if hirq.unwrap_trivial(m["scrut"]).get("k") == "Path"]
     if len(ms) != 1:
-        raise AnchorMissing("main `match x` of %s not found (%d candidates)" % (fn, len(ms)))
+        raise AnchorMissing("the main match over the current character of %s was not found (%d candidates)" % (fn, len(ms)))
     return b, ms[0]
 
 
